@@ -43,6 +43,7 @@ type c05Oracle struct {
 	classes   map[string]bool
 	hot       bool
 	anc       []*c05JV // enclosing objects of the struct being walked, nearest first (for ",inherit")
+	canonKeys bool     // conf: keys are compared in canonical form (userName == user_name == UserName)
 }
 
 func c05NewOracle() *c05Oracle {
@@ -177,7 +178,17 @@ func (o *c05Oracle) walkStruct(fs []c05Fld, obj *c05JV, val reflect.Value, path 
 		if len(ms) == 0 && f.Inh {
 			// documented by the package's tests: the nearest enclosing object that has the key provides the value
 			for _, a := range o.anc {
-				if ms = a.lookup(f.key(i)); len(ms) > 0 {
+				ms = a.lookup(f.key(i))
+				if o.canonKeys {
+					// through conf a differently spelled key of an enclosing object is the same key
+					ms = nil
+					for j := range a.M {
+						if c05Canon(a.M[j].K) == c05Canon(f.key(i)) {
+							ms = append(ms, &a.M[j].V)
+						}
+					}
+				}
+				if len(ms) > 0 {
 					o.class("inherited-from-enclosing-object")
 					break
 				}
